@@ -108,8 +108,23 @@ def run(ctx):
             nodes = [n for n in circuit.dag.nodes if not isinstance(circuit.dag.nodes[n]["op"], gops.InputOutputOperationBase)]
             if not nodes:
                 break
-            if rng.random() < 0.7:
+            r = rng.random()
+            if r < 0.4:
                 circuit.remove_op(rng.choice(nodes))
+            elif r < 0.75:
+                # replace an operation by one of ANOTHER class on the same registers (the class index must follow)
+                n0 = rng.choice(nodes)
+                old_op = circuit.dag.nodes[n0]["op"]
+                regs = [[t, q] for q, t in zip(old_op.q_registers, old_op.q_registers_type)]
+                if len(regs) == 1:
+                    kinds = [k for k in ("Hadamard", "Phase", "SigmaX", "Identity") if k != type(old_op).__name__]
+                    spec = {"k": rng.choice(kinds), "r": regs, "c": None}
+                elif type(old_op).__name__ in ("CNOT", "CZ"):
+                    spec = {"k": "CZ" if type(old_op).__name__ == "CNOT" else "CNOT", "r": regs, "c": None}
+                else:
+                    spec = None
+                if spec is not None and "Fixed" not in [str(x) for x in old_op.labels]:
+                    circuit.replace_op(n0, cz.build_op(spec))
             else:
                 circuit.add(cz.build_op({"k": rng.choice(cz.ONEQ), "r": [["e", rng.randrange(n_e)]], "c": None}))
     for f in (bc.ghz3_state_circuit, bc.linear_cluster_4qubit_circuit, bc.ghz4_state_circuit,
